@@ -18,7 +18,8 @@ def YMalformed (k : YKind) (allowEmpty : Bool) : Prop :=
 
 instance (k : YKind) (a : Bool) : Decidable (YMalformed k a) := by unfold YMalformed; infer_instance
 
-def XMalformed (x : XKind) : Prop := x = .shifted ∨ x = .shorter ∨ x = .unsorted ∨ x = .array
+def XMalformed (x : XKind) : Prop :=
+  x = .shifted ∨ x = .shorter ∨ x = .unsorted ∨ x = .array ∨ x = .interior ∨ x = .first ∨ x = .last ∨ x = .longer
 instance (x : XKind) : Decidable (XMalformed x) := by unfold XMalformed; infer_instance
 
 /-- `check_y` rejects exactly: unsorted or (unless allowed) empty index, multivariate or array-typed
@@ -28,7 +29,8 @@ theorem checkY_rejects_iff (k : YKind) (allowEmpty : Bool) :
   cases k <;> cases allowEmpty <;> decide
 
 /-- exogenous data are rejected exactly when array-typed or when their index differs from the
-target's (shifted, shorter, differently ordered) -/
+target's in ANY label (shifted, shorter, longer, differently ordered, only the first / only the last /
+only one inner label different) -/
 theorem checkX_rejects_iff (x : XKind) : checkXAgainst x = rej ↔ XMalformed x := by
   cases x <;> decide
 
@@ -87,7 +89,7 @@ arguments are, and ends unfitted -/
 theorem entry_rejects_malformed_y (y : YDesc) (hy : YMalformed y.kind false) :
     (∀ x fh st sp wl, Rejected (naiveFit y x fh st sp wl)) ∧
     (∀ x cv sc so, Rejected (evaluateEntry y x cv sc so)) ∧
-    (∀ x fh st wl sok, Rejected (reduceEntry y x fh st wl sok)) ∧
+    (∀ x fh st wl step sok, Rejected (reduceEntry y x fh st wl step sok)) ∧
     (∀ k sh fh a p, Rejected (compositeEntry k sh y fh a p)) := by
   have hY : checkY y.kind false = rej := (checkY_rejects_iff _ _).mpr hy
   have hYX : ∀ x, checkYX y.kind x false = rej := by
@@ -100,7 +102,7 @@ theorem entry_rejects_malformed_y (y : YDesc) (hy : YMalformed y.kind false) :
     unfold evaluateEntry
     apply finish_of_error
     cases so <;> cases cv <;> cases sc <;> simp [hYX x, rej, bind, Except.bind, pure, Except.pure]
-  · intro x fh st wl sok
+  · intro x fh st wl step sok
     unfold reduceEntry
     apply finish_of_error
     cases st <;> cases sok <;> simp [hYX x, rej, bind, Except.bind, pure, Except.pure]
@@ -116,7 +118,7 @@ theorem entry_rejects_malformed_y (y : YDesc) (hy : YMalformed y.kind false) :
 theorem entry_rejects_misaligned_X (y : YDesc) (x : XKind) (hx : XMalformed x) :
     (∀ fh st sp wl, Rejected (naiveFit y x fh st sp wl)) ∧
     (∀ cv sc so, Rejected (evaluateEntry y x cv sc so)) ∧
-    (∀ fh st wl sok, Rejected (reduceEntry y x fh st wl sok)) ∧
+    (∀ fh st wl step sok, Rejected (reduceEntry y x fh st wl step sok)) ∧
     (naiveUpdate y.kind x).ok = false := by
   have hYX : ∀ a, checkYX y.kind x a = rej := by
     intro a; exact (checkEqualIndex_rejects_iff _ _ _).mpr (Or.inr hx)
@@ -128,7 +130,7 @@ theorem entry_rejects_misaligned_X (y : YDesc) (x : XKind) (hx : XMalformed x) :
     unfold evaluateEntry
     apply finish_of_error
     cases so <;> cases cv <;> cases sc <;> simp [hYX false, rej, bind, Except.bind, pure, Except.pure]
-  · intro fh st wl sok
+  · intro fh st wl step sok
     unfold reduceEntry
     apply finish_of_error
     cases st <;> cases sok <;> simp [hYX false, rej, bind, Except.bind, pure, Except.pure]
@@ -147,7 +149,7 @@ theorem entry_rejects_bad_horizon (t : FhTok) (h : FhMalformed t) :
     (∀ y x st sp wl, Rejected (naiveFit y x t st sp wl)) ∧
     (∀ fitFh, (naivePredict fitFh t).ok = false) ∧
     (∀ k y wl step iw sww cut, Rejected (splitEntry k y t wl step iw sww cut)) ∧
-    (∀ y x st wl sok, Rejected (reduceEntry y x t st wl sok)) ∧
+    (∀ y x st wl step sok, Rejected (reduceEntry y x t st wl step sok)) ∧
     (∀ k sh y a p, Rejected (compositeEntry k sh y t a p)) ∧
     Rejected (requiredFit t) ∧
     (∀ enf, Rejected (fhEntry false t true true enf)) := by
@@ -191,7 +193,7 @@ theorem entry_rejects_bad_horizon (t : FhTok) (h : FhMalformed t) :
         | ok w => simp [hsf, rej]
       | cutoff =>
         cases cut <;> simp [hsf, rej, bind, Except.bind]
-  · intro y x st wl sok
+  · intro y x st wl step sok
     unfold reduceEntry
     apply finish_of_error
     cases hyx : checkYX y.kind x false with
@@ -229,7 +231,7 @@ theorem entry_rejects_bad_horizon (t : FhTok) (h : FhMalformed t) :
 theorem entry_rejects_missing_horizon :
     (naivePredict .none .none).ok = false ∧ Rejected (requiredFit .none) ∧
     (∀ sh y a p, Rejected (compositeEntry .stacking sh y .none a p)) ∧
-    (∀ y x st wl sok, st ≠ .recursive → Rejected (reduceEntry y x .none st wl sok)) := by
+    (∀ y x st wl step sok, st ≠ .recursive → Rejected (reduceEntry y x .none st wl step sok)) := by
   refine ⟨by decide, by decide, ?_, ?_⟩
   · intro sh y a p
     unfold compositeEntry
@@ -238,7 +240,7 @@ theorem entry_rejects_missing_horizon :
       cases hy2 : checkYX y.kind .none false <;>
         simp [hy2, rej, bind, Except.bind, pure, Except.pure, Rejected]
     · simp [hsh, rej, bind, Except.bind, pure, Except.pure, Rejected]
-  · intro y x st wl sok hst
+  · intro y x st wl step sok hst
     unfold reduceEntry
     apply finish_of_error
     cases hyx : checkYX y.kind x false <;> cases st <;> cases sok <;> cases x <;>
@@ -274,9 +276,10 @@ theorem entry_rejects_bad_window_step_sp (x : IntLike) (hx : BadInt x) :
     (∀ sp n, naiveWindow .drift sp x n = rej) ∧
     (∀ n, naiveWindow .mean (.int 1) x n = rej) ∧
     (∀ wl n, spIsOne x = false → naiveWindow .last x wl n = rej) ∧
-    (∀ y xx fh st sok, Rejected (reduceEntry y xx fh st x sok)) := by
+    (∀ y xx fh st step sok, Rejected (reduceEntry y xx fh st x step sok)) ∧
+    (∀ y xx fh st wl sok, Rejected (reduceEntry y xx fh st wl x sok)) := by
   unfold BadInt at hx
-  refine ⟨?_, ?_, ?_, ?_, ?_, ?_, ?_, ?_⟩
+  refine ⟨?_, ?_, ?_, ?_, ?_, ?_, ?_, ?_, ?_⟩
   · intro y fh step iw sww cut k hk
     unfold splitEntry
     apply finish_of_error
@@ -329,7 +332,16 @@ theorem entry_rejects_bad_window_step_sp (x : IntLike) (hx : BadInt x) :
     cases x <;> simp_all [naiveWindow, spIsOne, rej, bind, Except.bind, pure, Except.pure, checkPosInt]
   · intro wl n hone
     simp [naiveWindow, hone, hx, rej, bind, Except.bind]
-  · intro y xx fh st sok
+  · intro y xx fh st step sok
+    unfold reduceEntry
+    apply finish_of_error
+    cases hyx : checkYX y.kind xx false with
+    | error e => cases st <;> cases sok <;> simp [rej, bind, Except.bind, pure, Except.pure]
+    | ok u =>
+      cases hs : checkPosInt step <;> cases st <;> cases sok <;> cases xx <;> cases fh <;>
+        simp [hx, rej, bind, Except.bind, pure, Except.pure] <;>
+        (split <;> simp [hx, rej, bind, Except.bind, pure, Except.pure])
+  · intro y xx fh st wl sok
     unfold reduceEntry
     apply finish_of_error
     cases hyx : checkYX y.kind xx false with
@@ -402,11 +414,54 @@ theorem entry_rejects_window_not_fitting :
           · simp [h1, h2, h4, Except.map]
           · simp [h1, h2, hbad, h4, Except.map]
 
+/-- the step of a reduction forecaster (an argument of the reduction classes) is validated like every
+other step: a non-positive or non-integer one is rejected by fit whatever the series, exogenous data,
+horizon, strategy and window are, and no fitted state results -/
+theorem reducer_rejects_bad_step (step : IntLike) (hs : BadInt step) (y : YDesc) (x : XKind) (fh : FhTok)
+    (st : RedStrategy) (wl : IntLike) (sok : Bool) : Rejected (reduceEntry y x fh st wl step sok) :=
+  (entry_rejects_bad_window_step_sp step hs).2.2.2.2.2.2.2.2 y x fh st wl sok
+
+/-- ... and only such a step: a valid step (None, or an integer ≥ 1) never changes the outcome -/
+theorem reducer_valid_step_irrelevant (step : IntLike) (hs : ¬ BadInt step) (y : YDesc) (x : XKind) (fh : FhTok)
+    (st : RedStrategy) (wl : IntLike) (sok : Bool) :
+    reduceEntry y x fh st wl step sok = reduceEntry y x fh st wl (.int 1) sok := by
+  unfold BadInt at hs
+  unfold reduceEntry
+  cases h : checkPosInt step with
+  | error e => exact absurd h hs
+  | ok v =>
+    have h1 : checkPosInt (.int 1) = .ok (some 1) := by decide
+    simp only [h1, bind, Except.bind]
+
+/-- exogenous data whose index differs from the target's in ANY label - every label, the first only, the
+last only, a single inner one (same length, same end points), or by its length - are rejected by the
+tuner and by the train/test split as well (the other entry points: `entry_rejects_misaligned_X`) -/
+theorem misaligned_X_rejected_by_tuner_and_split (y : YDesc) (x : XKind) (hx : XMalformed x) :
+    (∀ cv sc g fh so, Rejected (gridSearchEntry y x cv sc g fh so)) ∧
+    (∀ fh test train, fh ≠ .none → Rejected (ttsEntry y x fh test train)) := by
+  have hYX : checkYX y.kind x false = rej := (checkEqualIndex_rejects_iff _ _ _).mpr (Or.inr hx)
+  have hX : checkXAgainst x = rej := (checkX_rejects_iff x).mpr hx
+  refine ⟨?_, ?_⟩
+  · intro cv sc g fh so
+    unfold gridSearchEntry
+    apply finish_of_error
+    simp only [hYX, bind_rej]
+  · intro fh test train hfh
+    unfold ttsEntry
+    apply finish_of_error
+    cases fh with
+    | none => exact absurd rfl hfh
+    | _ =>
+      by_cases hsz : (test != IntLike.none || train != IntLike.none) = true
+      · simp [hsz, rej, bind, Except.bind]
+      · cases hser : checkSeries y.kind false false false <;>
+          simp [hsz, hser, hX, rej, bind, Except.bind, pure, Except.pure]
+
 /-- unknown strategy names are rejected -/
 theorem entry_rejects_unknown_strategy :
     (∀ y x fh sp wl, Rejected (naiveFit y x fh .unknown sp wl)) ∧
-    (∀ y x fh wl sok, Rejected (reduceEntry y x fh .unknown wl sok)) ∧
-    (∀ y x fh st wl, Rejected (reduceEntry y x fh st wl false)) ∧
+    (∀ y x fh wl step sok, Rejected (reduceEntry y x fh .unknown wl step sok)) ∧
+    (∀ y x fh st wl step, Rejected (reduceEntry y x fh st wl step false)) ∧
     (∀ y x cv sc, Rejected (evaluateEntry y x cv sc false)) := by
   refine ⟨?_, ?_, ?_, ?_⟩
   · intro y x fh sp wl
@@ -417,9 +472,9 @@ theorem entry_rejects_unknown_strategy :
     | ok u =>
       cases fh <;> simp [naiveWindow, rej, bind, Except.bind, pure, Except.pure] <;>
         (split <;> simp [rej])
-  · intro y x fh wl sok
+  · intro y x fh wl step sok
     apply finish_of_error; simp [rej, bind, Except.bind]
-  · intro y x fh st wl
+  · intro y x fh st wl step
     apply finish_of_error
     cases st <;> simp [rej, bind, Except.bind, pure, Except.pure]
   · intro y x cv sc
@@ -478,6 +533,8 @@ theorem valid_context_accepted (n : Nat) (hn : 2 ≤ n) (x : XKind) (hx : x = .n
 -- non-vacuity
 example : YMalformed .unsorted false := by decide
 example : FhMalformed .dup := by decide
+example : XMalformed .interior ∧ checkYX .gapped .interior false = rej ∧ checkYX .gapped .ok false = .ok () := by decide
+example : BadInt (.int 0) ∧ ¬ BadInt .none ∧ ¬ BadInt (.int 2) := by decide
 example : BadInt (.int 0) ∧ BadInt .float ∧ BadInt .bool ∧ BadInt .str := by decide
 example : checkFh (.rel [1, 2]) false = .ok ⟨[1, 2], true⟩ := by decide
 
